@@ -69,44 +69,48 @@ def run_impl(lines, release=False, binary="impl_run", env=None, shards=JOBS):
     lines = list(lines)
     if not lines:
         return []
-    n = max(1, min(shards, (len(lines) + 39) // 40))
-    chunks = [lines[i::n] for i in range(n)]
-
-    def single(l, t=30):
-        try:
-            rr = subprocess.run([exe], input=l + "\n", capture_output=True, text=True, env=env or ENV, timeout=t)
-        except subprocess.TimeoutExpired:
-            return {"timeout": t}
-        o = rr.stdout.splitlines()
-        return json.loads(o[0]) if o else {"crash": rr.returncode, "stderr": rr.stderr[-500:]}
+    # chunks of bounded size (a chunk is one process), handed to a pool of workers
+    per = max(40, min(1500, (len(lines) + shards - 1) // shards))
+    chunks = [lines[i:i + per] for i in range(0, len(lines), per)]
 
     def one(chunk):
         try:
-            r = subprocess.run([exe], input="\n".join(chunk) + "\n", capture_output=True, text=True, env=env or ENV, timeout=240)
-        except subprocess.TimeoutExpired:
-            # something in this chunk does not come back: run the lines one by one under a time limit
-            return [single(l) for l in chunk]
-        out = r.stdout.splitlines()
-        if len(out) != len(chunk):
-            # the process died (abort / stack overflow): find the line that killed it
+            r = subprocess.run([exe], input="\n".join(chunk) + "\n", capture_output=True, text=True, env=env or ENV,
+                               timeout=240)
+        except subprocess.TimeoutExpired as e:
+            # a line of this chunk does not come back: the replies received so far tell which one
+            got = e.stdout or b""
+            if isinstance(got, bytes):
+                got = got.decode("utf-8", "replace")
+            done = got.split("\n")[:-1]          # the last piece is empty or an incomplete reply
             res = []
-            for i, l in enumerate(out):
-                res.append(json.loads(l))
+            for l in done[:len(chunk)]:
+                try:
+                    res.append(json.loads(l))
+                except ValueError:
+                    break
+            stuck = len(res)
+            if stuck >= len(chunk):
+                return res[:len(chunk)]
+            res.append({"timeout": 240, "line": chunk[stuck][:200]})
+            rest = chunk[stuck + 1:]
+            return res + (one(rest) if rest else [])
+        out = r.stdout.split("\n")           # not splitlines(): replies may contain U+0085, U+2028 ... inside strings
+        if out and out[-1] == "":
+            out.pop()
+        if len(out) < len(chunk):
+            # the process died (abort / stack overflow) on line len(out): record it and go on with the rest
+            res = [json.loads(l) for l in out]
             res.append({"crash": r.returncode, "stderr": r.stderr[-500:]})
-            # run the rest one by one
-            for l in chunk[len(out) + 1:]:
-                rr = subprocess.run([exe], input=l + "\n", capture_output=True, text=True, env=env or ENV)
-                o = rr.stdout.splitlines()
-                res.append(json.loads(o[0]) if o else {"crash": rr.returncode, "stderr": rr.stderr[-500:]})
-            return res
-        return [json.loads(l) for l in out]
+            rest = chunk[len(out) + 1:]
+            return res + (one(rest) if rest else [])
+        return [json.loads(l) for l in out[:len(chunk)]]
 
-    with ThreadPoolExecutor(max_workers=n) as ex:
+    with ThreadPoolExecutor(max_workers=shards) as ex:
         outs = list(ex.map(one, chunks))
-    res = [None] * len(lines)
-    for k, o in enumerate(outs):
-        for j, v in enumerate(o):
-            res[k + j * n] = v
+    res = []
+    for o in outs:
+        res += o
     return res
 
 
